@@ -4,6 +4,7 @@ package c20
 import (
 	"bytes"
 	"encoding/binary"
+	"errors"
 	"fmt"
 	"os"
 	"path/filepath"
@@ -37,7 +38,7 @@ func hashOf(i int) []byte {
 }
 
 type Op struct {
-	Kind string `json:"k"` // add | flush | reopen | reopen_noflush
+	Kind string `json:"k"` // add | flush | reopen | reopen_noflush | has_fault (B-th read of Has(H) fails)
 	H    int    `json:"h,omitempty"`
 	B    uint32 `json:"b,omitempty"` // batch size after a reopen
 }
@@ -60,6 +61,8 @@ func genCase(t *rapid.T) Case {
 	for i := 0; i < n; i++ {
 		k := rapid.IntRange(0, 99).Draw(t, "kind")
 		switch {
+		case k < 8:
+			c.Ops = append(c.Ops, Op{Kind: "has_fault", H: rapid.IntRange(0, space-1).Draw(t, "h"), B: uint32(rapid.IntRange(1, 6).Draw(t, "failIn"))})
 		case k < 70:
 			c.Ops = append(c.Ops, Op{Kind: "add", H: rapid.IntRange(0, space-1).Draw(t, "h")})
 		case k < 88:
@@ -84,18 +87,43 @@ type backing struct {
 	path string
 	f    *os.File
 	buf  *misc.Buffer
+	// read-fault injection
+	failIn int
+	hit    bool
 }
 
 func (b *backing) open() (index.ReadWriteSeekCloser, error) {
 	if b.kind == "file" {
 		f, err := os.OpenFile(b.path, os.O_RDWR|os.O_CREATE, 0o644)
 		b.f = f
-		return f, err
+		if err != nil {
+			return nil, err
+		}
+		return &faultRW{ReadWriteSeekCloser: f, b: b}, nil
 	}
 	if b.buf == nil {
 		b.buf = misc.NewBuffer(nil)
 	}
-	return b.buf, nil
+	return &faultRW{ReadWriteSeekCloser: b.buf, b: b}, nil
+}
+
+// faultRW fails the failIn-th read from now (once) with an error that is not io.EOF.
+type faultRW struct {
+	index.ReadWriteSeekCloser
+	b *backing
+}
+
+var errInjectedRead = errors.New("injected read error")
+
+func (f *faultRW) Read(p []byte) (int, error) {
+	if f.b.failIn > 0 {
+		f.b.failIn--
+		if f.b.failIn == 0 {
+			f.b.hit = true
+			return 0, errInjectedRead
+		}
+	}
+	return f.ReadWriteSeekCloser.Read(p)
 }
 
 func (b *backing) raw() ([]byte, error) {
@@ -244,6 +272,41 @@ func run(c Case) (o evid.Outcome, err error) {
 					}
 				}
 			}
+		case "has_fault":
+			// one read of the lookup fails: an error, or still the right answer - never a wrong one
+			bk.failIn, bk.hit = int(op.B), false
+			var got bool
+			var herr error
+			func() {
+				// insertIndex reports a read error from inside sort.Search by panicking with it;
+				// that is a (rude) report, not a wrong answer, and C20 says nothing about I/O errors
+				defer func() {
+					if p := recover(); p != nil {
+						if e, ok := p.(error); ok && errors.Is(e, errInjectedRead) {
+							herr = e
+							evid.Note("a read error during a lookup surfaces as a panic (insertIndex), not as an error value")
+							return
+						}
+						panic(p)
+					}
+				}()
+				got, herr = hs.Has(hashOf(op.H))
+			}()
+			hit := bk.hit
+			bk.failIn, bk.hit = 0, false
+			want := flushed[op.H]
+			if herr == nil && got != want && !pending[op.H] { // membership is promised once flushed
+
+				note := ""
+				if hit {
+					note = fmt.Sprintf(" (read #%d of the lookup failed and the failure was not reported)", op.B)
+				}
+				return o, fmt.Errorf("step %d: Has(%x) = %v, want %v%s", step, hashOf(op.H), got, want, note)
+			}
+			if hit {
+				o.Class("read-fault-in-lookup")
+			}
+			continue
 		case "flush":
 			if err := hs.Flush(); err != nil {
 				return o, fmt.Errorf("step %d: Flush: %v", step, err)
